@@ -34,11 +34,11 @@ BACK_CLASSES = ["default", "default", "int64", "narrow", "mapping"]
 
 def shards(tier):
     if tier == "quick":
-        return [{"label": "mix%d" % i, "kind": "mix", "n": 1500, "crash_is_violation": True} for i in range(8)] + \
-               [{"label": "rowscan", "kind": "rowscan", "n": 300, "crash_is_violation": True}]
-    out = [{"label": "mix%d" % i, "kind": "mix", "n": 12000, "crash_is_violation": True} for i in range(12)]
-    out += [{"label": "rowscan%d" % i, "kind": "rowscan", "n": 1500, "crash_is_violation": True} for i in range(3)]
-    out += [{"label": "big", "kind": "big", "n": 24, "crash_is_violation": True, "mem_gib": 12}]
+        return [{"label": "mix%d" % i, "kind": "mix", "n": 5000, "crash_is_violation": True} for i in range(12)] + \
+               [{"label": "rowscan", "kind": "rowscan", "n": 1000, "crash_is_violation": True}]
+    out = [{"label": "mix%d" % i, "kind": "mix", "n": 70000, "crash_is_violation": True} for i in range(13)]
+    out += [{"label": "rowscan%d" % i, "kind": "rowscan", "n": 8000, "crash_is_violation": True} for i in range(3)]
+    out += [{"label": "big", "kind": "big", "n": 60, "crash_is_violation": True, "mem_gib": 12}]
     return out
 
 
